@@ -8,6 +8,7 @@
 #include "config.h"
 #include "interior_node.h"
 #include "thread_info.h"
+#include "verif_hooks.h"
 
 namespace yakushima {
 
@@ -24,6 +25,7 @@ public:
     static status assign_thread_info(Token& token) {
         for (auto&& elem : thread_info_table_) {
             if (elem.gain_the_right()) {
+                YK_VPA(YK_LOAD, YK_C_EPOCH, epoch_management::verif_epoch_addr(), 8);
                 elem.set_begin_epoch(epoch_management::get_epoch());
                 token = &(elem);
                 return status::OK;
